@@ -1,6 +1,7 @@
 package scen
 
 import (
+	"strings"
 	"fmt"
 	"sort"
 
@@ -49,20 +50,33 @@ func (c *C02) Genesis() hub.Genesis {
 }
 
 func (c *C02) event(nonce, variant int64) *mhubtypes.SendToHubEvent {
-	return &mhubtypes.SendToHubEvent{
-		EventNonce: uint64(nonce), ExternalCoinId: EthHub, Amount: sdk.NewInt(c03Amount(nonce, variant)),
-		Sender: hub.HexAddr("depositor"), CosmosReceiver: c.User.String(), ExternalHeight: uint64(100 + nonce),
-		TxHash: fmt.Sprintf("0xdep%d%d", nonce, variant),
+	hv := variant
+	if variant == 2 {
+		hv = 0 // variant 2 reports the same external transaction as variant 0 with another amount
 	}
+	return &mhubtypes.SendToHubEvent{
+		EventNonce: uint64(nonce), ExternalCoinId: EthHub, Amount: c02Amount(nonce, variant),
+		Sender: hub.HexAddr("depositor"), CosmosReceiver: c.User.String(), ExternalHeight: uint64(100 + nonce),
+		TxHash: fmt.Sprintf("0xdep%d%d", nonce, hv),
+	}
+}
+
+// variant 2 of a nonce differs from variant 0 only above bit 64 of the amount
+func c02Amount(nonce, variant int64) sdk.Int {
+	if variant == 2 {
+		return sdk.NewInt(c03Amount(nonce, 0)).Add(pow2(64))
+	}
+	return sdk.NewInt(c03Amount(nonce, variant))
 }
 
 type c02Ghost struct {
 	Accepted map[string]bool
 	Bal      string
+	Voted    map[string]string // "nonce/variant" -> validator indexes whose claim for exactly that event was accepted
 }
 
 func (g *c02Ghost) Clone() Ghost {
-	n := &c02Ghost{Accepted: map[string]bool{}, Bal: g.Bal}
+	n := &c02Ghost{Accepted: map[string]bool{}, Bal: g.Bal, Voted: cloneS(g.Voted)}
 	for k, v := range g.Accepted {
 		n.Accepted[k] = v
 	}
@@ -74,9 +88,11 @@ func (g *c02Ghost) Canon() string {
 		ks = append(ks, k)
 	}
 	sort.Strings(ks)
-	return fmt.Sprint(ks, g.Bal)
+	return fmt.Sprint(ks, g.Bal) + canonMap(g.Voted)
 }
-func (c *C02) NewGhost(in *hub.Instance) Ghost { return &c02Ghost{Accepted: map[string]bool{}, Bal: "0"} }
+func (c *C02) NewGhost(in *hub.Instance) Ghost {
+	return &c02Ghost{Accepted: map[string]bool{}, Bal: "0", Voted: map[string]string{}}
+}
 
 // signer kinds: 0 validator's own account, 1 its orchestrator, 2 stranger account
 func (c *C02) Ops(s *HState) []engine.Op {
@@ -91,7 +107,15 @@ func (c *C02) Ops(s *HState) []engine.Op {
 		}
 	}
 	ops = append(ops, engine.OpN("Vote", 0, 1, 0, 2))
+	// the last validator reports nonce 1 with an amount that differs from variant 0 only above bit 64
+	ops = append(ops, engine.OpN("Vote", len(c.Vals)-1, 1, 2, 0))
 	if c.StakeOps {
+		// validator A leaves for good (x/staking deletes the record) / is created again by the same operator
+		if !s.Snap.Staking[0].Removed {
+			ops = append(ops, engine.OpN("Leave", 0))
+		} else {
+			ops = append(ops, engine.OpN("Return", 0))
+		}
 		for v := range c.Vals {
 			ops = append(ops, engine.OpN("Unbond", v), engine.OpN("Rebond", v), engine.OpN("SetPower", v, 1), engine.OpN("SetPower", v, 40))
 		}
@@ -102,14 +126,24 @@ func (c *C02) Ops(s *HState) []engine.Op {
 func (c *C02) Do(in *hub.Instance, gg Ghost, op engine.Op, st *engine.Step) {
 	g := gg.(*c02Ghost)
 	switch op.Kind {
+	case "Leave":
+		in.ValLeave(int(op.I[0]))
+		st.Obs = "l"
+	case "Return":
+		p := c.Powers[op.I[0]]
+		if p == 0 {
+			p = 7
+		}
+		in.ValReturn(int(op.I[0]), p)
+		st.Obs = "ret"
 	case "Unbond":
-		in.Staking.Vals[op.I[0]].Bonded = false
+		in.ValUnbond(int(op.I[0]))
 		st.Obs = "u"
 	case "Rebond":
-		in.Staking.Vals[op.I[0]].Bonded = true
+		in.ValRebond(int(op.I[0]))
 		st.Obs = "r"
 	case "SetPower":
-		in.Staking.Vals[op.I[0]].Power = op.I[1]
+		in.ValSetPower(int(op.I[0]), op.I[1])
 		st.Obs = "p"
 	case "Vote":
 		v, n, va, kind := op.I[0], op.I[1], op.I[2], op.I[3]
@@ -141,7 +175,11 @@ func (c *C02) Do(in *hub.Instance, gg Ghost, op engine.Op, st *engine.Step) {
 		if len(after) != len(before)+1 || after[len(after)-1] != c.Vals[v].Oper.String() {
 			st.Violate("C02", "vote_attributed_to_wrong_validator", "recordEventVote", "signer of validator %d (kind %d): votes %v -> %v", v, kind, before, after)
 		}
-		if !in.Staking.Vals[v].Bonded {
+		key := fmt.Sprintf("%d/%d", n, va)
+		if !strings.Contains(g.Voted[key], fmt.Sprintf("[%d]", v)) {
+			g.Voted[key] += fmt.Sprintf("[%d]", v)
+		}
+		if !in.Staking.Vals[v].Bonded || in.Staking.Vals[v].Removed {
 			st.Violate("C02", "vote_accepted_from_unbonded_validator", "getSignerValidator", "validator %d is not bonded but its claim was recorded", v)
 		}
 	case "NextBlock":
@@ -172,7 +210,7 @@ func (c *C02) afterTally(in *hub.Instance, g *c02Ghost, before uint64, st *engin
 	total := int64(0)
 	power := map[string]int64{}
 	for _, v := range in.Staking.Vals {
-		if v.Bonded {
+		if v.Bonded && !v.Removed {
 			total += v.Power
 			power[v.Oper] = v.Power
 		}
@@ -209,6 +247,26 @@ func (c *C02) afterTally(in *hub.Instance, g *c02Ghost, before uint64, st *engin
 			if 100*sum < 66*total {
 				st.Violate("C02", "applied_below_66_percent", fmt.Sprintf("EventVoteRecordPowerThreshold(total=%d)", total),
 					"event %s applied with distinct bonded voters holding %d of %d total power (%.1f%%); votes %v", id, sum, total, 100*float64(sum)/float64(total), r.Votes)
+			}
+			// ... and, independently of the hub's own record: the validators whose claim for EXACTLY this event was accepted
+			// (reference kept from the message results) hold that quorum
+			if d, ok := ev.(*mhubtypes.SendToHubEvent); ok {
+				own := int64(0)
+				variant := -1
+				for va := int64(0); va < 3; va++ {
+					if d.Amount.Equal(c02Amount(int64(nonce), va)) {
+						variant = int(va)
+					}
+				}
+				for i, v := range c.Vals {
+					if variant >= 0 && strings.Contains(g.Voted[fmt.Sprintf("%d/%d", nonce, variant)], fmt.Sprintf("[%d]", i)) {
+						own += power[v.Oper.String()]
+					}
+				}
+				if 100*own < 66*total {
+					st.Violate("C02", "applied_event_lacks_quorum_of_its_own_voters", "recordEventVote/TryEventVoteRecord",
+						"event %s (amount %s) applied; the validators that voted for exactly this event hold %d of %d; record votes %v, reference %v", id, d.Amount, own, total, r.Votes, g.Voted)
+				}
 			}
 			st.Count("events_applied", 1)
 		}
